@@ -55,6 +55,10 @@ pub struct WritersCase {
     /// (a transport that stalls and recovers; with a small capacity the writers sit in their writes)
     #[serde(default)]
     pub stall: Option<(u16, u8)>,
+    /// Some(secs): the session runs its keep-alive monitor with this interval (its first request is
+    /// due at once, while the settings frame is still buffered) - one more writer, inside the session
+    #[serde(default)]
+    pub monitor: Option<u8>,
 }
 
 pub struct WritersFam;
@@ -88,15 +92,20 @@ pub fn run_concurrent(case: &WritersCase) -> Result<ConcRun, Fail> {
     let yields = case.yields.clone();
     let seed = case.draw_seed;
     let stall = case.stall;
+    let monitor = case.monitor;
     run_virtual(async move {
         install_draw(seed);
         let sched = install_schedule(yields);
         let mut l = link(c2s, PipeParams::default());
-        let sess = client_session(&mut l, padding(&text), None);
+        let hb = monitor.map(|secs| anytls_rs::session::SessionHeartbeatConfig { interval: tokio::time::Duration::from_secs(secs.max(1) as u64), timeout: tokio::time::Duration::from_secs(1_000_000) });
+        let sess = client_session(&mut l, padding(&text), hb);
         // a peer that only drains
         let mut sr = l.s_r.take().unwrap();
         let _keep_s_w = l.s_w.take();
+        let stalling = Arc::new(std::sync::atomic::AtomicBool::new(false));
+        let stalling2 = stalling.clone();
         tokio::spawn(async move {
+            let stalling = stalling2;
             let mut buf = vec![0u8; 65536];
             let mut total = 0usize;
             let mut stalled = false;
@@ -104,7 +113,9 @@ pub fn run_concurrent(case: &WritersCase) -> Result<ConcRun, Fail> {
                 if let Some((n, secs)) = stall {
                     if !stalled && total >= n as usize {
                         stalled = true;
+                        stalling.store(true, std::sync::atomic::Ordering::SeqCst);
                         tokio::time::sleep(tokio::time::Duration::from_secs(secs as u64)).await;
+                        stalling.store(false, std::sync::atomic::Ordering::SeqCst);
                     }
                 }
                 // read in small pieces so that the stall point is hit closely
@@ -163,8 +174,9 @@ pub fn run_concurrent(case: &WritersCase) -> Result<ConcRun, Fail> {
                             if !plan.opens {
                                 sess.disable_buffering();
                             }
-                            log.lock().unwrap().push(RFrame::ctl(rc::HEART_REQ, ti as u32));
-                            sess.write_control_frame(Frame::control(Command::HeartRequest, ti as u32))
+                            // (id 0 is what the session's own monitor uses)
+                            log.lock().unwrap().push(RFrame::ctl(rc::HEART_REQ, 0x100 + ti as u32));
+                            sess.write_control_frame(Frame::control(Command::HeartRequest, 0x100 + ti as u32))
                                 .await
                                 .map_err(|e| format!("write_control_frame: {e}"))?;
                         }
@@ -198,7 +210,22 @@ pub fn run_concurrent(case: &WritersCase) -> Result<ConcRun, Fail> {
         // behind a stalled transport
         settle(tokio::time::Duration::from_secs(2 + stall.map(|s| s.1 as u64 + 5).unwrap_or(0))).await;
         let subs: Vec<Vec<RFrame>> = subs.iter().map(|s| s.lock().unwrap().clone()).collect();
-        Ok(ConcRun { raw: l.c2s.raw(), writes: l.c2s.writes(), subs, sched: sched.lock().unwrap().clone() })
+        // With the keep-alive monitor running the wire is never final: take the snapshot at a moment
+        // when no write of the monitor is half-way through the transport (an in-flight write completes
+        // within milliseconds of virtual time; a torn frame stays torn and is judged below)
+        let mut raw = l.c2s.raw();
+        if monitor.is_some() {
+            // (the monitor's own traffic can carry the peer to its stall point this late)
+            for _ in 0..600 {
+                let in_stall = stalling.load(std::sync::atomic::Ordering::SeqCst);
+                if !in_stall && rc::parse(&raw).1 == raw.len() {
+                    break;
+                }
+                settle(tokio::time::Duration::from_millis(if in_stall { 1000 } else { 5 })).await;
+                raw = l.c2s.raw();
+            }
+        }
+        Ok(ConcRun { raw, writes: l.c2s.writes(), subs, sched: sched.lock().unwrap().clone() })
     })
 }
 
@@ -211,10 +238,12 @@ pub fn check_wire(run: &ConcRun) -> Result<Vec<RFrame>, Fail> {
     ensure!(
         used == run.raw.len(),
         "C11.contig",
-        "the wire does not parse into complete frames: {} of {} bytes consumed after {} frames",
+        "the wire does not parse into complete frames: {} of {} bytes consumed after {} frames; frames {:?}; unparsed tail {:02x?}",
         used,
         run.raw.len(),
-        frames.len()
+        frames.len(),
+        frames.iter().rev().take(12).rev().map(describe).collect::<Vec<_>>(),
+        &run.raw[used..run.raw.len().min(used + 24)]
     );
     let kept: Vec<RFrame> = frames.into_iter().filter(|f| f.cmd != rc::WASTE).collect();
     ensure!(!kept.is_empty(), "C11.settings", "nothing on the wire");
@@ -234,7 +263,8 @@ pub fn check_wire(run: &ConcRun) -> Result<Vec<RFrame>, Fail> {
     let mut want: Vec<&RFrame> = run.subs.iter().flatten().collect();
     let flush = RFrame::ctl(rc::HEART_REQ, 0xFFFF);
     want.push(&flush);
-    let mut got: Vec<&RFrame> = kept.iter().filter(|f| f.cmd != rc::SETTINGS).collect();
+    // the session's own keep-alive requests (id 0) come in any number
+    let mut got: Vec<&RFrame> = kept.iter().filter(|f| f.cmd != rc::SETTINGS && !(f.cmd == rc::HEART_REQ && f.sid == 0)).collect();
     let key = |f: &&RFrame| (f.cmd, f.sid, f.data.len(), f.data.clone());
     let mut w2 = want.clone();
     w2.sort_by_key(key);
@@ -311,8 +341,9 @@ impl Family for WritersFam {
         let scheme_sel = prop_oneof![3 => Just(SchemeSel::Default), 2 => Just(SchemeSel::Stop0)];
         let cap = prop_oneof![Just(16usize), Just(64), Just(1024), Just(1usize << 20)];
         let stall = proptest::option::weighted(0.3, (prop_oneof![Just(0u16), 1u16..600], prop_oneof![Just(1u8), Just(9), Just(11), Just(31), Just(61)]));
-        (scheme_sel, tasks_strategy(), cap, yields_strategy(), any::<u64>(), stall)
-            .prop_map(|(scheme, tasks, capacity, yields, draw_seed, stall)| WritersCase {
+        let monitor = proptest::option::weighted(0.3, prop_oneof![Just(1u8), Just(30)]);
+        (scheme_sel, tasks_strategy(), cap, yields_strategy(), any::<u64>(), stall, monitor)
+            .prop_map(|(scheme, tasks, capacity, yields, draw_seed, stall, monitor)| WritersCase {
                 scheme,
                 tasks,
                 // a stall only bites when the writers cannot get rid of their bytes
@@ -320,6 +351,7 @@ impl Family for WritersFam {
                 yields,
                 draw_seed,
                 stall,
+                monitor,
             })
             .boxed()
     }
@@ -340,6 +372,7 @@ impl Family for WritersFam {
                     yields,
                     draw_seed: k as u64,
                     stall: None,
+                    monitor: if k % 3 == 2 { Some(1) } else { None },
                 });
             }
         }
@@ -358,6 +391,7 @@ impl Family for WritersFam {
         out.class_if(run.sched.points_with_yield.iter().any(|p| *p == "process_stream_data:before_write"), "yield@process_stream_data");
         out.class_if(case.c2s.capacity <= 64, "transport-pending");
         out.class_if(case.stall.is_some_and(|s| s.1 >= 11), "transport-stalled>10s");
+        out.class_if(case.monitor.is_some(), "keep-alive-monitor-running");
         out.class_if(case.tasks.iter().any(|t| t.ops.iter().any(|o| matches!(o, TOp::Send(_)))), "send_data");
         Ok(out)
     }
